@@ -124,7 +124,12 @@ def check(model, rep, tier):
           # each scope must come from an annotation of the handler's node
           for e in refs:
             sv = e[:-len('.referenced')]
-            ds = tpl.rdefs(fi.node).reaching(c, sv) if sv.isidentifier() else None
+            if not sv.isidentifier():
+              # the annotation read directly: anno.getanno(node, ..SCOPE).referenced
+              if 'anno.getanno(' not in sv or 'SCOPE' not in sv.upper():
+                scopes_ok = False
+              continue
+            ds = tpl.rdefs(fi.node).reaching(c, sv)
             if not ds or any(isinstance(d, tuple) or 'anno.getanno(' not in
                              core.norm(d) or 'SCOPE' not in core.norm(d).upper()
                              for d in ds):
